@@ -220,6 +220,91 @@ func (bc *boundsCtx) writeBetween(from, to *ssa.BasicBlock, at ssa.Instruction, 
 	return walk(at.Block(), at)
 }
 
+// infeasibleWhenShort: the block of `at` is unreachable for every length below s.need.
+func (bc *boundsCtx) infeasibleWhenShort(s *idxSite, at ssa.Instruction) bool {
+	fn := at.Parent()
+	if fn == nil {
+		return false
+	}
+	// string subjects compared with constants in the function, and the constants
+	subjects := map[string]map[string]bool{}
+	for _, b := range fn.Blocks {
+		for _, ins := range b.Instrs {
+			bo, ok := ins.(*ssa.BinOp)
+			if !ok || (bo.Op != token.EQL && bo.Op != token.NEQ) {
+				continue
+			}
+			for _, pr := range [][2]ssa.Value{{bo.X, bo.Y}, {bo.Y, bo.X}} {
+				if cn, ok := pr[1].(*ssa.Const); ok && cn.Value != nil && cn.Value.Kind() == constant.String {
+					if _, isC := pr[0].(*ssa.Const); isC {
+						continue
+					}
+					n := pathName(pr[0])
+					if n == "" || n == "?" {
+						continue
+					}
+					if subjects[n] == nil {
+						subjects[n] = map[string]bool{}
+					}
+					subjects[n][constant.StringVal(cn.Value)] = true
+				}
+			}
+		}
+	}
+	var names []string
+	for n := range subjects {
+		names = append(names, n)
+	}
+	sort.Strings(names)
+	if len(names) > 2 {
+		names = names[:0] // too many to enumerate: lengths only
+	}
+	total := 1
+	var doms [][]string
+	for _, n := range names {
+		var vs []string
+		for v := range subjects[n] {
+			vs = append(vs, v)
+		}
+		sort.Strings(vs)
+		vs = append(vs, "\x00other")
+		doms = append(doms, vs)
+		total *= len(vs)
+	}
+	if total > 400 {
+		return false
+	}
+	decided := false
+	for l := int64(0); l < s.need; l++ {
+		idx := make([]int, len(names))
+		for {
+			a := &condAtoms{hasLen: true, lenVal: l, lenSeq: func(v ssa.Value) bool { return bc.sameSeq(v, s.x) }, strVals: map[string]string{}, strEq: map[string]string{}, assign: map[string]bool{}}
+			for i, n := range names {
+				a.strVals[n] = doms[i][idx[i]]
+			}
+			run := a.run(fn, 0)
+			if run.reach[at.Block()] {
+				return false
+			}
+			decided = true
+			// next combination
+			k := 0
+			for k < len(idx) {
+				idx[k]++
+				if idx[k] < len(doms[k]) {
+					break
+				}
+				idx[k] = 0
+				k++
+			}
+			if k == len(idx) {
+				break
+			}
+		}
+	}
+	return decided
+}
+
 // cmpBound: on the given outcome of cond, a lower bound for len(x) (x returned), if cond is a
 // comparison of a length with a constant.
 func cmpBound(cond ssa.Value, outcome bool) (ssa.Value, int64, bool) {
@@ -512,6 +597,14 @@ func (bc *boundsCtx) prove(s *idxSite, at ssa.Instruction) {
 	if best >= s.need {
 		s.ok, s.byCmp = true, true
 		s.why = fmt.Sprintf("under dominating tests that len ≥ %d", best)
+		return
+	}
+	// the paths on which the sequence is too short cannot reach the site: for every shorter length
+	// and every value of the strings the function branches on, the branch conditions (evaluated
+	// with those values, E-condeval) never lead here
+	if s.need <= 3 && bc.depth == 0 && bc.infeasibleWhenShort(s, at) {
+		s.ok, s.byCmp = true, true
+		s.why = fmt.Sprintf("unreachable whenever len < %d (branch conditions evaluated for every shorter length)", s.need)
 		return
 	}
 	s.why = fmt.Sprintf("no dominating test or construction shows len ≥ %d", s.need)
@@ -814,7 +907,7 @@ var bc0 = &boundsCtx{}
 
 func c15BoundedIndex(c *Ctx) {
 	c.Rule("R10 bounded.index (contradiction rule): in hcl, hclsyntax, json, hclwrite, hcldec, ext/dynblock, a sequence whose length is tested before one constant or last-element index/slice in a function is tested before every such index in that function, and the functions in which every such index was proven on the reference tree (table) keep every one proven: x[c] under len(x) ≥ c+1, x[len(x)-c] and x[:len(x)-c] under len(x) ≥ c, on every path, by dominating comparisons of len(x) with constants or by construction (make/append/literal). Sequences that are never length-tested in a function rely on invariants established elsewhere and are not decided. Variable indices x[i+k] (k ≥ 0, not the index variable of a range loop) are decided in the functions where every one of them was proven on the reference tree (table): each stays under a dominating comparison i+k < len(x) (in any of its forms, also through len(x)-c); negative offsets and lower bounds are not decided")
-	fns := c.P.pkgFuncs("hcl", "hclsyntax", "json", "hclwrite", "hcldec", "ext/dynblock")
+	fns := c.P.pkgFuncs(c.Scope("hcl", "hclsyntax", "json", "hclwrite", "hcldec", "ext/dynblock")...)
 	sort.Slice(fns, func(i, j int) bool { return FuncName(fns[i]) < FuncName(fns[j]) })
 	nDisc, nSites, nSkipped := 0, 0, 0
 	refFn, refVarFn := map[*ssa.Function]bool{}, map[*ssa.Function]bool{}
